@@ -8,13 +8,15 @@
  *   tick <ns>                       every clock read advances virtual time by ns (spin-waits on the clock end)
  *   run choices <c...> | run sched <t...> | run seed <s> [spurious-permille]
  * actions: L<k> launch slot k | P<k> launch with cpu_id 0 | Q<k> launch with cpu_id 1000, its first pthread_create
- *   fails with EINVAL (library retries unpinned) | R<k> same, the retry fails too | J<k> aws_thread_join | D<k> aws_thread_clean_up | A<i> register at-exit
+ *   fails with EINVAL (library retries unpinned) | R<k> same, the retry fails too | a trailing 'n' on a launch
+ *   (L3n, Q1n ...) gives the thread a name (options->name) | J<k> aws_thread_join | D<k> aws_thread_clean_up | A<i> register at-exit
  *   callback i | C print managed count | W aws_thread_join_all_managed | T<ns> set managed join timeout
  *   | Y yield (schedule point) | S<ns> aws_thread_current_sleep
  * output: P lines in execution order (see printf's below), then "P end ...", "W sched ...", "W ev ..." */
 #include "detsched.h"
 #include "h_common.h"
 #include <aws/common/private/thread_shared.h>
+#include <aws/common/byte_buf.h>
 #include <aws/common/thread.h>
 #include <errno.h>
 #include <stdlib.h>
@@ -29,6 +31,7 @@
 struct act {
     char op;
     long a;
+    int named; /* launch with a non-empty thread name (options->name) */
 };
 
 struct cbrec {
@@ -47,6 +50,7 @@ struct slot {
     int handle_init;
     aws_thread_id_t tid;
     int started;
+    int ord; /* scheduler ordinal of the thread running this slot */
     struct cbrec cbs[MAXCB];
     int ncbs;
 };
@@ -88,6 +92,7 @@ static void s_thread_fn(void *arg) {
     struct slot *s = arg;
     HC_CHECK(s->magic == SLOT_MAGIC);
     s->tid = aws_thread_current_thread_id();
+    s->ord = ds_self_ordinal();
     s->started++;
     printf("P run s%d arg=%d\n", s_current_slot(), s->id);
     s_run_actions(s);
@@ -107,6 +112,9 @@ static void s_run_actions(struct slot *s) {
                 if (k->managed) {
                     o.join_strategy = AWS_TJS_MANAGED;
                 }
+                if (a->named) {
+                    o.name = aws_byte_cursor_from_c_str("c20-thread");
+                }
                 if (a->op == 'P') {
                     o.cpu_id = 0;
                 } else if (a->op != 'L') {
@@ -116,7 +124,7 @@ static void s_run_actions(struct slot *s) {
                 aws_thread_init(&k->handle, hc_allocator());
                 k->handle_init = 1;
                 int rc = aws_thread_launch(
-                    &k->handle, s_thread_fn, k, (a->op != 'L' || k->managed || (k->id & 1)) ? &o : NULL);
+                    &k->handle, s_thread_fn, k, (a->op != 'L' || a->named || k->managed || (k->id & 1)) ? &o : NULL);
                 printf("P launch s%d by=s%d rc=%s\n", k->id, s->id, hc_err(rc));
                 break;
             }
@@ -180,6 +188,7 @@ static int s_parse_actions(struct slot *s, char **t, int from, int n) {
         struct act *a = &s->acts[s->nacts++];
         a->op = t[i][0];
         a->a = t[i][1] ? atol(t[i] + 1) : 0;
+        a->named = strchr("LPQR", a->op) && t[i][strlen(t[i]) - 1] == 'n';
         if (strchr("LPQRJD", a->op) && (a->a < 1 || a->a >= MAXSLOT)) {
             return 0;
         }
@@ -239,6 +248,7 @@ int main(void) {
                 continue;
             }
             cfg.max_steps = 20000;
+            cfg.create_return_point = 1;
             cfg.clock_tick_ns = s_tick;
             ds_init(&cfg);
             if (s_fail_n >= 0) {
@@ -252,9 +262,15 @@ int main(void) {
                 over += s_slots[i].started > 1;
             }
             size_t count = rc == 0 ? aws_thread_get_managed_thread_count() : 0;
+            int unjoined = 0; /* managed threads that ran but were never the target of a pthread_join */
+            for (int i = 1; i < MAXSLOT; ++i) {
+                if (s_slots[i].managed && s_slots[i].started && !(ds_thread_state(s_slots[i].ord) & DS_TS_JOINED)) {
+                    unjoined++;
+                }
+            }
             printf(
-                "P end deadlock=%d livelock=%d misuse=%d rerun=%d count=%zu live=%ld\n", ds_deadlocked(), ds_livelocked(),
-                ds_misuse_count(), over, count, hc_live_blocks() - s_baseline_blocks);
+                "P end deadlock=%d livelock=%d misuse=%d rerun=%d count=%zu live=%ld unjoined=%d\n", ds_deadlocked(),
+                ds_livelocked(), ds_misuse_count(), over, count, hc_live_blocks() - s_baseline_blocks, unjoined);
             if (rc != 0) {
                 char who[512];
                 ds_describe_blocked(who, sizeof(who));
